@@ -1,0 +1,14 @@
+//go:build verif
+
+package dir
+
+// Exports for the verification harness (see /verif/DESIGN.md, Section 6).
+
+func VerifEncodeDirEnt(inum uint64, name string) []byte {
+	return encodeDirEnt(&dirEnt{inum: inum, name: name})
+}
+
+func VerifDecodeDirEnt(d []byte) (uint64, string) {
+	de := decodeDirEnt(d)
+	return de.inum, de.name
+}
